@@ -257,14 +257,26 @@ func main() {
 	}
 }
 
-// conformProps: checks whose cases are also run on the real runtime, with the stride over their
-// thorough-tier case list (quick: 10 times sparser).
-var conformProps = map[string]int{"C09": 1, "C08": 1}
+// conformFamilies: per check, the conformance families that are run on the real runtime as well, with
+// the stride over the family's thorough-tier case list (quick: 10 times sparser; a family with
+// thoroughOnly is skipped in the quick tier because it runs in real seconds).
+type conformFamily struct {
+	name         string
+	stride       int
+	thoroughOnly bool
+	par          int
+}
+
+var conformProps = map[string][]conformFamily{
+	"C09": {{name: "C09", stride: 1, par: 6}},
+	"C08": {{name: "C08", stride: 1, par: 6}},
+	"C06": {{name: "C06-time", stride: 1, thoroughOnly: true, par: 64}},
+}
 
 type conformResult struct {
+	Family        string           `json:"family"`
 	Cases         int              `json:"cases"`
 	Agreed        int              `json:"agreed"`
-	Skipped       int              `json:"skipped_harness_errors"`
 	Stride        int              `json:"stride"`
 	Retried       int              `json:"retried"`
 	Disagreements []map[string]any `json:"disagreements"`
@@ -272,48 +284,40 @@ type conformResult struct {
 	WallS         float64          `json:"wall_s"`
 }
 
+type conformRecord struct {
+	Index int             `json:"index"`
+	Case  json.RawMessage `json:"case"`
+	Model json.RawMessage `json:"model"`
+	Real  json.RawMessage `json:"real,omitempty"`
+	Agree bool            `json:"agree"`
+	Why   string          `json:"why,omitempty"`
+}
+
 // conformance runs the model interpreter (rewritten corebgp under vrt, conc binary) and the real
-// interpreter (unrewritten corebgp, Go runtime, loopback TCP, seq binary) on the same cases and
-// compares the transcripts. A disagreement is retried twice on the real side (load can make a real
-// session miss a deadline); what remains is reported in the evidence. It never changes the verdict.
-func conformance(prop, tier string, stride int) conformResult {
+// interpreter (unrewritten corebgp, Go runtime, loopback TCP, seq binary) on the same cases; the real
+// side compares. A disagreement is retried twice, one session at a time (load can make a real session
+// miss a deadline); what remains is reported in the evidence. It never changes the verdict.
+func conformance(f conformFamily, tier string, stride int) conformResult {
 	t0 := time.Now()
-	res := conformResult{Stride: stride, What: "every stride-th wire case of the check: transcript (OPEN sent, messages after the stimulus, close, deliveries, OnEstablished/OnClose counts) of the rewritten package under vrt/vnet compared with the transcript of the unrewritten package on the Go runtime over loopback TCP"}
+	res := conformResult{Family: f.name, Stride: stride, What: "every stride-th case of the family, interpreted by the rewritten package under vrt/vnet (virtual goroutines, TCP and time) and by the unrewritten package on the Go runtime over loopback TCP in real time; wire families compare the transcripts for equality (OPEN sent, messages after the stimulus, close, deliveries, OnEstablished/OnClose counts), the time family compares the timelines of what corebgp sends with a tolerance of 0.25 s + 3 %"}
 	concBin, seqBin := build(true, false), build(false, false)
 	tmp, _ := os.MkdirTemp(filepath.Join(root, ".work"), "conf-")
 	defer os.RemoveAll(tmp)
 	const n = 16
-	type mrec struct {
-		Index int             `json:"index"`
-		Case  json.RawMessage `json:"case"`
-		Model json.RawMessage `json:"model"`
-	}
-	type rrec struct {
-		Index int             `json:"index"`
-		Real  json.RawMessage `json:"real"`
-	}
-	canon := func(raw json.RawMessage) (string, bool) {
-		var m map[string]any
-		json.Unmarshal(raw, &m)
-		_, bad := m["harness_error"]
-		delete(m, "harness_error")
-		b, _ := json.Marshal(m)
-		return string(b), bad
-	}
-	runReal := func(in, out string, par int) []rrec {
-		cmd := exec.Command(seqBin, "conform-real", in, "-out", out, "-par", strconv.Itoa(par))
+	runReal := func(in, out string, par int) []conformRecord {
+		cmd := exec.Command(seqBin, "conform-real", f.name, "-in", in, "-out", out, "-par", strconv.Itoa(par))
 		cmd.Env = append(env(), "VERIF_ROOT="+root)
 		if o, err := cmd.CombinedOutput(); err != nil {
 			fmt.Fprintf(os.Stderr, "conformance: real run failed: %v\n%s\n", err, o)
 			return nil
 		}
-		var rr []rrec
+		var rr []conformRecord
 		b, _ := os.ReadFile(out)
 		json.Unmarshal(b, &rr)
 		return rr
 	}
 	var mu sync.Mutex
-	var pending []mrec // disagreements after the first pass
+	var pending []conformRecord
 	var wg sync.WaitGroup
 	sem := make(chan struct{}, 8)
 	for i := 0; i < n; i++ {
@@ -321,62 +325,62 @@ func conformance(prop, tier string, stride int) conformResult {
 		go func(i int) {
 			defer wg.Done()
 			mf := filepath.Join(tmp, fmt.Sprintf("model%d.json", i))
-			cmd := exec.Command(concBin, "conform-model", prop, "-tier", tier, "-stride", strconv.Itoa(stride), "-shard", strconv.Itoa(i), "-of", strconv.Itoa(n), "-out", mf)
+			cmd := exec.Command(concBin, "conform-model", f.name, "-tier", tier, "-stride", strconv.Itoa(stride), "-shard", strconv.Itoa(i), "-of", strconv.Itoa(n), "-out", mf)
 			cmd.Env = append(env(), "GOMAXPROCS=1", "VERIF_ROOT="+root)
 			if o, err := cmd.CombinedOutput(); err != nil {
 				fmt.Fprintf(os.Stderr, "conformance: model run failed: %v\n%s\n", err, o)
 				return
 			}
-			var mm []mrec
+			var mm []conformRecord
 			b, _ := os.ReadFile(mf)
 			json.Unmarshal(b, &mm)
+			if len(mm) == 0 {
+				return
+			}
 			sem <- struct{}{}
-			rr := runReal(mf, filepath.Join(tmp, fmt.Sprintf("real%d.json", i)), 6)
+			rr := runReal(mf, filepath.Join(tmp, fmt.Sprintf("real%d.json", i)), f.par)
 			<-sem
-			byIdx := map[int]json.RawMessage{}
+			done := map[int]conformRecord{}
 			for _, r := range rr {
-				byIdx[r.Index] = r.Real
+				done[r.Index] = r
 			}
 			mu.Lock()
 			defer mu.Unlock()
 			for _, m := range mm {
 				res.Cases++
-				ms, mbad := canon(m.Model)
-				rs, rbad := canon(byIdx[m.Index])
-				switch {
-				case mbad:
-					res.Skipped++
-				case !rbad && ms == rs:
+				if r, ok := done[m.Index]; ok && r.Agree {
 					res.Agreed++
-				default:
+				} else {
 					pending = append(pending, m)
 				}
 			}
 		}(i)
 	}
 	wg.Wait()
-	// second and third look at what disagreed, one session at a time
 	for round := 0; round < 2 && len(pending) > 0; round++ {
 		res.Retried += len(pending)
 		in := filepath.Join(tmp, fmt.Sprintf("retry%d.json", round))
 		b, _ := json.Marshal(pending)
 		os.WriteFile(in, b, 0o644)
-		rr := runReal(in, in+".out", 1)
-		byIdx := map[int]json.RawMessage{}
-		for _, r := range rr {
-			byIdx[r.Index] = r.Real
+		par := 1
+		if f.thoroughOnly {
+			par = 4 // real-time cases: still few at a time, but not one after the other
 		}
-		var still []mrec
+		rr := runReal(in, in+".out", par)
+		done := map[int]conformRecord{}
+		for _, r := range rr {
+			done[r.Index] = r
+		}
+		var still []conformRecord
 		for _, m := range pending {
-			ms, _ := canon(m.Model)
-			rs, rbad := canon(byIdx[m.Index])
-			if !rbad && ms == rs {
+			r, ok := done[m.Index]
+			if ok && r.Agree {
 				res.Agreed++
 				continue
 			}
 			still = append(still, m)
 			if round == 1 && len(res.Disagreements) < 20 {
-				res.Disagreements = append(res.Disagreements, map[string]any{"index": m.Index, "case": m.Case, "model": m.Model, "real": byIdx[m.Index]})
+				res.Disagreements = append(res.Disagreements, map[string]any{"index": m.Index, "case": m.Case, "model": m.Model, "real": r.Real, "why": r.Why})
 			}
 		}
 		pending = still
@@ -529,15 +533,27 @@ func runCheck(prop, tier string, seed int64) int {
 	for k, v := range agg.Extra {
 		cov[k] = v
 	}
-	if stride, ok := conformProps[prop]; ok && len(agg.Violations) == 0 && os.Getenv("VERIF_NO_CONFORMANCE") == "" {
-		// the wire cases of this check, replayed on the real runtime over loopback TCP (DESIGN.md 3.6)
-		if tier != "thorough" {
-			stride *= 10
+	if fams, ok := conformProps[prop]; ok && len(agg.Violations) == 0 && os.Getenv("VERIF_NO_CONFORMANCE") == "" {
+		// the same cases on the real runtime over loopback TCP (DESIGN.md 3.6)
+		validated := int64(0)
+		var crs []conformResult
+		for _, f := range fams {
+			stride := f.stride
+			if tier != "thorough" {
+				if f.thoroughOnly {
+					continue
+				}
+				stride *= 10
+			}
+			cr := conformance(f, tier, stride)
+			crs = append(crs, cr)
+			validated += int64(cr.Agreed)
+			fmt.Printf("CONFORMANCE property=%s family=%s cases=%d agreed=%d disagreements=%d retried=%d wall=%.1fs\n", prop, f.name, cr.Cases, cr.Agreed, cr.Cases-cr.Agreed, cr.Retried, cr.WallS)
 		}
-		cr := conformance(prop, tier, stride)
-		cov["traces_validated_against_impl"] = cr.Agreed
-		cov["conformance"] = cr
-		fmt.Printf("CONFORMANCE property=%s cases=%d agreed=%d disagreements=%d skipped=%d wall=%.1fs\n", prop, cr.Cases, cr.Agreed, len(cr.Disagreements), cr.Skipped, cr.WallS)
+		if len(crs) > 0 {
+			cov["traces_validated_against_impl"] = validated
+			cov["conformance"] = crs
+		}
 	}
 	if len(agg.Notes) > 0 {
 		cov["notes"] = agg.Notes
